@@ -310,6 +310,11 @@ func (p *Path) callBuiltin(caller *frame, fn *ssa.Builtin, args []Value) Value {
 			}
 		}
 		return r
+	case "ssa:wrapnilchk":
+		if ptr, ok := args[0].(*Value); ok && ptr == nil {
+			panic(goPanic{p.mkRuntimeError("value method called through nil pointer")})
+		}
+		return args[0]
 	case "clear":
 		if m, ok := args[0].(*MapV); ok && m != nil {
 			m.Keys, m.Vals = nil, nil
